@@ -602,8 +602,6 @@ def coresident(step, pool):
 
 def key_relation(step, pool, what=''):
     args, pairs = key_pairs(step, pool)
-    if any('nan' in ATOMS[a].tags for a in args + ctor_keys(step)):
-        return 'nan'
     co = coresident(step, pool)
     pairs = [p for p in pairs if p not in co]
     if what.startswith('exception'):
@@ -665,18 +663,68 @@ def nan_involved(step, pool):
     return False
 
 
+def _nan_type_blind(desc):
+    """description with every NaN *map key* relabelled xs:double (entries re-sorted)"""
+    if isinstance(desc, list):
+        if len(desc) == 2 and desc[0] == 'M' and isinstance(desc[1], list):
+            ents = []
+            for kd, vd in desc[1]:
+                if isinstance(kd, list) and len(kd) == 3 and kd[0] == 'A' and kd[2] == 'NaN':
+                    kd = ['A', 'double', 'NaN']
+                ents.append([kd, _nan_type_blind(vd)])
+            return ['M', sorted(ents, key=dkey)]
+        return [_nan_type_blind(x) for x in desc]
+    return desc
+
+
+def _has_nan_key(desc):
+    if isinstance(desc, list):
+        if len(desc) == 2 and desc[0] == 'M' and isinstance(desc[1], list):
+            for kd, vd in desc[1]:
+                if isinstance(kd, list) and len(kd) == 3 and kd[0] == 'A' and kd[2] == 'NaN':
+                    return True
+                if _has_nan_key(vd):
+                    return True
+            return False
+        return any(_has_nan_key(x) for x in desc)
+    return False
+
+
+def nan_key_involved(step, pool, got_desc, exp_desc):
+    """a NaN is used as a KEY: in the step's key arguments, in the maps it refers to, or in the result"""
+    try:
+        keys = [step.get('k')] + list(step.get('ks') or []) + [e[0] for e in (step.get('entries') or [])]
+        if any(isinstance(k, str) and 'NaN' in k for k in keys):
+            return True
+        if _has_nan_key(got_desc) or _has_nan_key(exp_desc):
+            return True
+        for i in step_refs(step):
+            if 0 <= i < len(pool) and pool[i] is not None and _has_nan_key(mdesc(pool[i])):
+                return True
+    except Exception:
+        return False
+    return False
+
+
 def classify(step, what, pool, got_desc=None, exp_desc=None):
-    if nan_involved(step, pool):
-        # every deviation on maps keyed by NaN shares the special-cased NaN key handling of XPathMap
-        return 'C15/same-key/nan'
     if what == 'value' and got_desc is not None and any(ATOMS[k].kc == 'untypedAtomic' for k in ctor_keys(step)):
         if untyped_as_string(exp_desc) == untyped_as_string(got_desc):
             return 'C15/map-constructor/untypedAtomic-key-becomes-string'
+        if untyped_as_string(_nan_type_blind(exp_desc)) == untyped_as_string(_nan_type_blind(got_desc)):
+            return 'C15/map-constructor/untypedAtomic-key-becomes-string'      # plus the listed NaN key type
     rel = None
     if not (what == 'value' and got_desc is not None and same_canon_keys(got_desc, exp_desc)):
         rel = key_relation(step, pool, what)
     if rel is not None:
         return 'C15/same-key/' + rel
+    if nan_key_involved(step, pool, got_desc, exp_desc):
+        # maps keyed by NaN: XPathMap stores the NaN key apart and gives it back as xs:double whatever its type was
+        # (listed).  Only a difference that vanishes when the TYPE of NaN keys is ignored is that deviation; any
+        # other wrong answer on a map with a NaN key is keyed by operation.
+        if what == 'value' and got_desc is not None and exp_desc is not None and \
+                _nan_type_blind(got_desc) == _nan_type_blind(exp_desc):
+            return 'C15/same-key/nan'
+        return 'C15/same-key/nan-other/%s/%s' % (step['op'], what)
     return 'C15/%s/%s/%s' % (step['op'], argclass(step, pool), what)
 
 
@@ -1113,8 +1161,26 @@ def shrink(kind, case):
                 yield {'steps': steps[:n] + [dict(s, members=s['members'][:j] + s['members'][j + 1:])] + steps[n + 1:]}
 
 
+def directed_histories():
+    """special keys (NaN, the two zeros, INF) met by every key-taking operation in its one-key and several-keys form"""
+    specials = ["xs:double('NaN')", "xs:float('NaN')", '-0e0', "xs:double('INF')"]
+    out = []
+    for sp in specials:
+        ctor = {'op': 'map-ctor', 'entries': [[sp, ['a', '1']], ["'a'", ['a', '2']], ['1', ['a', '3']]]}
+        for ks in ([sp], ["'a'", sp], [sp, "'zz'"], [sp, sp], ["'a'", '1', sp]):
+            for single in (True, False):
+                out.append({'steps': [ctor, {'op': 'map:remove', 'm': 0, 'ks': ks, 'single': single},
+                                      {'op': 'map:size', 'm': 1}, {'op': 'map:keys', 'm': 1}]})
+        out.append({'steps': [ctor, {'op': 'map:contains', 'm': 0, 'k': sp}, {'op': 'map:get', 'm': 0, 'k': sp, 'form': 'fn'},
+                              {'op': 'map:put', 'm': 0, 'k': sp, 'v': ['a', "'b'"]}, {'op': 'map:size', 'm': 3}]})
+    return out
+
+
 def run(h):
     h.case('atoms', {})
+    if h.shard == 0:
+        for hist in directed_histories():
+            h.case('history', hist)
     r = h.rng
     for _ in range(h.n(2500)):
         h.case('history', g_history(r))
